@@ -220,7 +220,7 @@ def run(tier, rnd, out):
     cs = cases(tier, rnd)
     run_direct(out, "direct", cs)
     import logging
-    lg = logging.getLogger("aioswitcher"); old = lg.level; h = logging.NullHandler(); lg.addHandler(h); lg.setLevel(logging.DEBUG)
+    lg = logging.getLogger("aioswitcher"); old = lg.level; h = lib.FormattingSink(); lg.addHandler(h); lg.setLevel(logging.DEBUG)
     try: run_direct(out, "direct-with-debug-logging-enabled", cs)
     finally: lg.setLevel(old); lg.removeHandler(h)
     longer = [c + world.rand_bytes(rnd, k) for c in c05.captures() for k in (1, 2, 3, 4, 40, 300, 1000)]
